@@ -243,4 +243,13 @@ func init() {
 	}
 	Props["C18"].Engines = append(Props["C18"].Engines, &concEngine{opts: c18})
 	Props["C18"].Conc = c18
+	// C05 (sequential form): whole-API programs with extreme durations ("never" deadlines that later
+	// become finite through SetExpiresAfter or a read, and the reverse), same-goroutine executor;
+	// the structural audit at the end of the run compares table, eviction policy and timer
+	// wheel, and the derived views are compared with the model after every step.
+	Props["C05"].Engines = append(Props["C05"].Engines, &seqEngine{
+		profile: Profile{Prop: "C05", Executor: []string{"sync"}, ForceExp: true, ExtremeClk: true, MinOps: 10, MaxOps: 80,
+			OpW: w(defaultOpW, map[string]int{"setexpires": 10, "advance": 14, "cleanup": 6, "wsize": 4, "esize": 4, "hottest": 3, "coldest": 3, "all": 3})},
+		nontrivial: func(o *SeqOutcome) bool { return o.Probes["final-structural-audit"] > 0 },
+	})
 }
